@@ -153,6 +153,8 @@ def file_mtimes(ctx, zones, tables):
 
 def run(ctx):
     core.use_repo()
+    import translate_time
+    translate_time.check(ctx)        # _to_naive_utc_time compiled from caching.py and linked to Store/Time.v by a theorem
     rng = ctx.rng
     zones, tables = [], {}
     W0, W1 = us_of(dt.datetime(2011, 1, 1, tzinfo=dt.timezone.utc)), us_of(dt.datetime(2022, 6, 1, tzinfo=dt.timezone.utc))
